@@ -370,12 +370,23 @@ func (s *Serializer) loadInterfaceOpts(x interface{}, opts LoadOpts) *lisp.LVal 
 			return lisp.Errorf("allocation size %d exceeds maximum (%d)", len(x), maxAlloc)
 		}
 		m := SortedMap(x)
+		// Go map iteration order is random, so when several members fail to
+		// convert the one reported must not be "whichever came first": keep
+		// the failure of the smallest key, which is the same on every run.
+		var lerr *lisp.LVal
+		var lerrKey string
 		for k, v := range m {
 			lval := s.loadInterfaceOpts(v, opts)
 			if lval.Type == lisp.LError {
-				return lval
+				if lerr == nil || k < lerrKey {
+					lerr, lerrKey = lval, k
+				}
+				continue
 			}
 			m[k] = lval
+		}
+		if lerr != nil {
+			return lerr
 		}
 		return lisp.SortedMapFromData(lisp.NewMapData(m))
 	case []interface{}:
